@@ -8,7 +8,7 @@
    on the abstract protocol in coq/RaftAbs by the raftabs group.
 
    The abstract-protocol theorems (coq/RaftAbs) are stated at the end of this file. *)
-From ZV Require Import Raft.Consts Raft.Model Raft.Proofs Raft.ProofsLog Raft.ProofsStore Raft.Core Raft.ProofsCore.
+From ZV Require Import Raft.Consts Raft.Model Raft.Proofs Raft.ProofsLog Raft.ProofsStore Raft.ProofsRocks Raft.Core Raft.ProofsCore.
 From Coq Require Import List NArith.
 Import ListNotations.
 Open Scope N_scope.
@@ -159,6 +159,64 @@ Theorem C02_restore_spec : forall l m off si st,
 Proof. exact restore_spec. Qed.
 Print Assumptions C02_restore_spec.
 
+(* ---------------------------------------------------------------------------------------- *)
+(* (11)-(15): the same statements for logs over RocksStorage (the storage used in production). Raft/ProofsRocks.v
+   shows that in a good RocksStorage state (cache invariant + contiguous key space containing the snapshot index;
+   kept by every operation raft issues, C03_rocks_good_reachable) every raftLog operation gives the result it gives
+   over the MemoryStorage holding the same entries (to_mem), whatever the cached first/last index hold. *)
+
+(* (11) maybeAppend simulates: same answer, same panic, and the resulting logs correspond *)
+Theorem C02_rocks_maybe_append_simulates : forall l idx lt cm ents, rgood l ->
+  sim (l_maybe_append l idx lt cm ents) (l_maybe_append (to_mem l) idx lt cm ents).
+Proof. exact sim_maybe_append. Qed.
+Print Assumptions C02_rocks_maybe_append_simulates.
+
+Theorem C02_rocks_next_ents_simulates : forall l, rgood l -> sim (l_next_ents l) (l_next_ents (to_mem l)).
+Proof. exact sim_next_ents. Qed.
+Print Assumptions C02_rocks_next_ents_simulates.
+
+(* (12) = (4) over RocksStorage *)
+Theorem C02_rocks_maybe_append_partial : forall l idx lt cm ents r l',
+  rgood l -> wf_u (l_u l) -> contig (idx + 1) ents ->
+  (forall lv l1, l_last_index l = Ok (lv, l1) -> u_off (l_u l) <= lv + 1) ->
+  l_maybe_append l idx lt cm ents = Ok (r, l') ->
+  l_committed l <= l_committed l' /\ l_applied l' = l_applied l /\ rgood l' /\ wf_u (l_u l') /\
+  (forall i, i <= l_committed l -> term_of (l_term l' i) = term_of (l_term l i)) /\
+  (forall n, r = Some n -> n = idx + nlen ents /\
+     ((forall fv l1, l_first_index l = Ok (fv, l1) -> fv - 1 <= l_committed l) ->
+      forall x, In x ents -> term_of (l_term l' (eindex x)) = Ok (eterm x))).
+Proof. exact maybe_append_rocks. Qed.
+Print Assumptions C02_rocks_maybe_append_partial.
+
+(* (13) = (5) over RocksStorage: r_log_entry reads the unstable part, else the engine's key i *)
+Theorem C02_rocks_slice_returns_log_entries : forall l s lo hi max,
+  wf_rlog l s -> mfirst l (rs_off s) <= lo -> lo < hi -> hi <= rlast l s + 1 ->
+  exists es l', l_slice l lo hi max = Ok (es, l') /\ rgood l' /\ to_mem l' = to_mem l /\
+                rgood_ents (l_u l) s lo es /\ nlen es <= hi - lo.
+Proof. exact slice_spec_rocks. Qed.
+Print Assumptions C02_rocks_slice_returns_log_entries.
+
+(* (14) = (6) over RocksStorage *)
+Theorem C02_rocks_next_ents_handout : forall l s,
+  wf_rlog l s -> l_committed l <= rlast l s ->
+  let lo := N.max (l_applied l + 1) (mfirst l (rs_off s)) in
+  (lo <= l_committed l ->
+     exists es l', l_next_ents l = Ok (es, l') /\ rgood l' /\ to_mem l' = to_mem l /\
+                   rgood_ents (l_u l) s lo es /\ (forall e, In e es -> eindex e <= l_committed l)) /\
+  (l_committed l < lo -> exists l', l_next_ents l = Ok ([], l') /\ rgood l' /\ to_mem l' = to_mem l).
+Proof. exact next_ents_spec_rocks. Qed.
+Print Assumptions C02_rocks_next_ents_handout.
+
+(* (15) = (7) over RocksStorage *)
+Theorem C02_rocks_advance_gap_free : forall l s es l1,
+  wf_rlog l s -> l_committed l <= rlast l s ->
+  l_next_ents l = Ok (es, l1) -> es <> [] ->
+  exists l2 e, last_opt es = Some e /\ advance_applied l1 es 0 = Ok l2 /\
+    l_applied l2 = eindex e /\ l_committed l2 = l_committed l /\ l_u l2 = l_u l /\ rgood l2 /\
+    N.max (l_applied l2 + 1) (mfirst l2 (rs_off s)) = eindex e + 1.
+Proof. exact advance_after_handout_rocks. Qed.
+Print Assumptions C02_rocks_advance_gap_free.
+
 (* ====================================================================================== *)
 (* The property over all schedules, on the abstract protocol of coq/RaftAbs (Model.v: per-node term /
    vote / role / log / commit / configuration, the network as grant, ack and campaign records, crash and
@@ -288,3 +346,12 @@ Proof.
   unfold wf_mlog. cbn. repeat split; try (vm_compute; reflexivity); try discriminate.
   exists (mkE 0 0 0 0), [mkE 1 1 11 10; mkE 1 2 12 10; mkE 1 3 13 10]. split; [reflexivity|]. cbn. repeat split.
 Qed.
+Example C02_ex_rocks_handout :
+  (* the engine holds 1..3 after a restart of the storage object, committed 3, applied 1: nextEnts hands out 2..3 *)
+  let s := fold_left rs_step [RAppend [mkE 1 1 11 10; mkE 1 2 12 10; mkE 1 3 13 10]; RReopen] rs_new in
+  match new_log (SRocks s) no_limit with
+  | Ok l => match l_next_ents (set_applied (set_committed l 3) 1) with
+            | Ok (es, _) => es = [mkE 1 2 12 10; mkE 1 3 13 10]
+            | _ => False end
+  | _ => False end.
+Proof. vm_compute. reflexivity. Qed.
